@@ -85,6 +85,34 @@ def run(ctx: Ctx):
            "non-blank mass from the extension / non-extension probabilities only (slots swapped otherwise)",
            rel, ret.lineno)
 
+    # merging an extension into an existing prefix requires the prefix relation: the mask that moves mass between
+    # slots, and the mask that clears merged extensions, both derive (value flow) from prev_is_prefix
+    merge_masks = []
+    for n in own_nodes(adv.node):
+        if isinstance(n, ast.Call) and isinstance(n.func, ast.Attribute) and n.func.attr == "masked_fill" and n.args:
+            der = rda.derives(n.args[0])
+            names = {d.name for d in der.defs}
+            if "y_prev_lens" in names and not {"next_ind"} & names:
+                merge_masks.append((n, "prev_is_prefix" in der.params()))
+    col.floor("merge_mask_sites", len(merge_masks), 2)
+    for n, ok in merge_masks:
+        col.ob("G16", "S1", f"{where_a}::merge-mask-uses-prefix-relation({u(n.args[0])[:30]})", ok,
+               f"`{u(n)[:80]}`: mass is moved/cleared between beam slots by a mask that does not depend on the prefix "
+               f"relation (prev_is_prefix): two unrelated prefixes whose lengths differ by one are merged", rel, n.lineno,
+               sample=u(n)[:100])
+    # number of kept candidates = min(width, old_width * (V + 1))
+    from sa.norm import Normalizer, padd, pstr
+    kdef = [n for n in own_nodes(adv.node) if isinstance(n, ast.Assign) and isinstance(n.value, ast.Call)
+            and call_name(n.value) == "min" and len(n.value.args) == 2 and any(u(a) == "width" for a in n.value.args)]
+    okk = False
+    if kdef:
+        other = [a for a in kdef[0].value.args if u(a) != "width"][0]
+        nz = Normalizer()
+        okk = not padd(nz.poly(other), nz.poly(ast.parse("Kp * V + Kp", mode="eval").body), -1)
+    col.ob("G12", "S1", f"{where_a}::K=min(width, old_width*(V+1))", okk,
+           f"the number of kept candidates is `{u(kdef[0].value) if kdef else None}`; there are old_width * V extension "
+           f"candidates plus old_width non-extension candidates", rel, kdef[0].lineno if kdef else adv.line)
+
     # ---- S2 fusion branch -------------------------------------------------------------------
     n_g, n_e = check_index_spaces(col, sl, rel, "S2", "probs_t")
     col.floor("extract_by_src_sites", n_e, 1)
@@ -339,6 +367,8 @@ def _mutants():
           "neg_inf = nb_probs_prev.new_full((N, self.width - prev_width), 0.0)", "CTCPrefixSearch.forward::pad-mass"),
         M("only-one-state-reindexed", D, "in_next = self.lm.extract_by_src(in_next, next_src.flatten())", "pass",
           "G16/S2"),
+        M("merge-on-length-alone", D, "ext_is_exact = ((y_prev_lens + 1).unsqueeze(2) == y_prev_lens.unsqueeze(1)) & prev_is_prefix", "ext_is_exact = (y_prev_lens + 1).unsqueeze(2) == y_prev_lens.unsqueeze(1)", "merge-mask-uses-prefix-relation"),
+        M("K-too-small", D, "K = min(width, Kp * (V + 1))", "K = min(width, Kp * V)", "K=min(width"),
         M("twin:where-form", D, "b_nonext_probs_cand.gather(1, next_src).masked_fill(~next_is_nonext, 0.0)",
           "torch.where(next_is_nonext, b_nonext_probs_cand.gather(1, next_src), torch.zeros_like(nb_probs_next))", "", twin=True),
     ]
